@@ -1,7 +1,7 @@
 (* C14 - the prefix tree of trie.py behaves like a finite map from bit strings to values;
    deletion prunes exactly the value-less leaf chains; suffixes lists exactly the keys below a key. *)
 From Coq Require Import ZArith List Bool Arith Lia.
-From IPV8V Require Import lib.PyErr model.M14_routing proofs.P14_bits.
+From IPV8V Require Import lib.PyErr model.M14_routing spec.S14_kademlia proofs.P14_bits.
 Import ListNotations.
 
 Section TrieFacts.
@@ -120,22 +120,6 @@ Proof.
 Qed.
 
 (* ---- no value-less leaf chain is ever left behind *)
-Fixpoint nonvoid t : bool :=
-  match t with
-  | Empty => false
-  | TNode v c0 c1 => (match v with Some _ => true | None => false end) || nonvoid c0 || nonvoid c1
-  end.
-
-(* every node object below the root has a value somewhere in its sub-tree *)
-Fixpoint compact_sub t : Prop :=
-  match t with
-  | Empty => True
-  | TNode v c0 c1 => nonvoid t = true /\ compact_sub c0 /\ compact_sub c1
-  end.
-
-Definition compact t : Prop :=
-  match t with Empty => True | TNode _ c0 c1 => compact_sub c0 /\ compact_sub c1 end.
-
 Lemma compact_sub_compact t : compact_sub t -> compact t.
 Proof. destruct t; cbn; tauto. Qed.
 
